@@ -297,7 +297,7 @@ func runC13(c runCfg) error {
 			pkgs = append(pkgs, &scratch.Pkg{Name: fmt.Sprintf("s%03d", i), Doc: []byte(doc),
 				Opts: gen.Options{API: true, DoNotEdit: true, SpecRaw: []byte(ct), BasePath: base, SpecName: "openapi.yaml"}})
 		}
-		root, err := os.MkdirTemp(c.Out, "mod")
+		root, err := mkRoot(c)
 		if err != nil {
 			return err
 		}
